@@ -57,6 +57,19 @@ Proof. exact vec_returned. Qed.
 Theorem C12_given_untouched : forall evs l b, wf l -> giv l b = true -> safe l evs -> (forall e, In e evs -> ~ touches b e) /\ giv (run l evs) b = true.
 Proof. exact given_untouched. Qed.
 
+
+(* --- formatted methods: the key is a fresh copy of the caller's name; the value is a fresh block of the call filled from the formatting
+       buffer, which this call allocated and released again (private_f, via_tmp in Alloc/Theorems.v) --- *)
+Theorem C12_tree_putstrf_fresh_copies : forall Sz g key ns len k al, out (tree_step Sz g (TPutf key ns len) k al) = Done -> private_f g (tree_step Sz g (TPutf key ns len) k al).
+Proof. exact tree_putf_private. Qed.
+Theorem C12_hashtbl_putstrf_fresh_copies : forall Sz g key ns len k al, out (hash_step Sz g (HPutf key ns len) k al) = Done -> private_f g (hash_step Sz g (HPutf key ns len) k al).
+Proof. exact hash_putf_private. Qed.
+Theorem C12_listtbl_putstrf_fresh_copies : forall Sz g uniq top fwd key ns len k al,
+  out (ltbl_step Sz g (LPutf uniq top fwd key ns len) k al) = Done -> private_f g (ltbl_step Sz g (LPutf uniq top fwd key ns len) k al).
+Proof. exact ltbl_putf_private. Qed.
+Theorem C12_grow_addstrf_fresh_copies : forall Sz g pos len k al, out (list_step Sz g (SAddf pos len) k al) = Done -> private_f g (list_step Sz g (SAddf pos len) k al).
+Proof. exact list_addf_private. Qed.
+
 (* --- non-vacuity --- *)
 Example C12_ex_put_copies :
   let r := tree_step sz64 (mkG [1] []) (TPut 7 2 3) 2 allok in
@@ -76,3 +89,4 @@ Print Assumptions C12_vector_fresh_copies.
 Print Assumptions C12_tree_returned_independent. Print Assumptions C12_hashtbl_returned_independent. Print Assumptions C12_listtbl_returned_independent.
 Print Assumptions C12_list_returned_independent. Print Assumptions C12_hasharr_returned_independent. Print Assumptions C12_vector_returned_independent.
 Print Assumptions C12_given_untouched.
+Print Assumptions C12_tree_putstrf_fresh_copies. Print Assumptions C12_hashtbl_putstrf_fresh_copies. Print Assumptions C12_listtbl_putstrf_fresh_copies. Print Assumptions C12_grow_addstrf_fresh_copies.
